@@ -406,6 +406,11 @@ H("tp_read_one_0e_len1", ["C03", "C10"], "quick", "transport_parameters::read_on
   [("id", "u8", 14), ("len", "u8", 1), ("value", "[u8; 8]"), ("server", "bool")], 10,
   ["accepted", "rejected"], ["TransportParameters::read"],
   "parameter active_connection_id_limit alone with declared length 1: every 8 value bytes")
+H("assembler_defragment_step", ["C01"], "quick", "connection::assembler::defragment_step",
+  [("offset0", "u64"), ("len", "usize"), ("alloc", "usize"), ("defragmented", "bool"), ("frontier", "u64")], 4,
+  ["chunk entirely below the frontier", "chunk trimmed", "chunk kept whole"],
+  ["Buffer::try_mark_defragment", "Assembler::defragment (first loop body)"],
+  "one buffered chunk of 1..=8 bytes at any offset < 2^62, allocation size <= 2^20, any frontier < 2^62; the heap traversal and the copy loop of defragment are outside")
 H("frame_fixed_roundtrip_native", ["C10"], "replay-only", "frame::fixed_frame_roundtrip_sweep",
   [("salt", "u64")], 12, [],
   ["frame::Iter::try_next", "frame encoders"], "native replay body of E2 query e2_frame_field_order (encode -> frame::Iter round trip of every fixed-layout frame kind; loops, native only)")
